@@ -21,7 +21,9 @@ import vlib
 ALL_FIX = ["mergeToken", "hubDefault", "hubHostname", "legacyAlias", "cloneTransport"]
 # repaired behaviours present in the tree under test ((D) mirrors the code: Fix = PRESENT);
 # add a name here when the corresponding findings/X04-*.patch has been committed to /repo
-PRESENT = set()
+#   mergeToken      /repo 8cb3b1d (finding X04-1)
+#   cloneTransport  /repo 2d99b41 (finding X04-2)
+PRESENT = {"mergeToken", "cloneTransport"}
 if os.environ.get("X04_FIX_PRESENT"):          # e.g. when checking a tree with some patches applied
     PRESENT = {x for x in os.environ["X04_FIX_PRESENT"].split(",") if x in ALL_FIX}
 
@@ -193,7 +195,9 @@ def standard(ctx, name, events):
         f.write(json.dumps({"ev": "reset", "trace": name}, sort_keys=True) + "\n")
         for ev in events:
             f.write(json.dumps(ev, sort_keys=True) + "\n")
-    r = ctx.validate("HostConfTrace", "X04_trace.cfg", fn, timeout=1200)
+    # a single trace: a small heap is enough (several of these run side by side)
+    r = ctx.validate("HostConfTrace", "X04_trace.cfg", fn, timeout=1200,
+                     env={"JAVA_TOOL_OPTIONS": "-Dtlc2.tool.queue.IStateQueue=StateDeque -Xss64m -Xmx1g"})
     if r["accepted"]:
         return None
     if r["line"] is None or r["line"] < 2:
@@ -283,7 +287,7 @@ def judge(ctx, traces):
     for i, r in enumerate(reports):
         r["sig"] = signature(r["trace"], r["line"], r["detail"])
         by_sig.setdefault(r["sig"], []).append(r)
-    with concurrent.futures.ThreadPoolExecutor(max_workers=6) as ex:
+    with concurrent.futures.ThreadPoolExecutor(max_workers=3) as ex:
         futs = []
         for sig, reps in sorted(by_sig.items()):
             rep = reps[0]
@@ -350,7 +354,7 @@ def binding_demo(ctx, traces, ok_ids):
         demos.append(("demo-json-field-lost", t))
     if len(demos) < 5:
         raise vlib.ToolError("only %d binding demos could be built from the accepted traces" % len(demos))
-    with concurrent.futures.ThreadPoolExecutor(max_workers=6) as ex:
+    with concurrent.futures.ThreadPoolExecutor(max_workers=3) as ex:
         res = list(ex.map(lambda d: standard(ctx, d[0], d[1]["events"]), demos))
     for (name, t), rj in zip(demos, res):
         if rj is None:
@@ -380,7 +384,7 @@ def run(ctx):
     rng = random.Random(ctx.seed)
     thorough = ctx.thorough
     missing = [f for f in ALL_FIX if f not in PRESENT]
-    pool = concurrent.futures.ThreadPoolExecutor(max_workers=4)
+    pool = concurrent.futures.ThreadPoolExecutor(max_workers=3)
 
     # ---- 1. model checking: (D) against (P)
     # values per field: new entry 3; existing entry 2 (quick) / 3 (thorough)
@@ -388,7 +392,7 @@ def run(ctx):
     jobs = []   # (future, label, expect_violation)
 
     def mc(base, fix, tag, label, expect=False, **over):
-        kw = dict(workers=4, label=label, allow_violation=expect, timeout=3000)
+        kw = dict(workers=4, label=label, allow_violation=expect, timeout=3000, heap="2g")
         cfg = cfgv(ctx, base, fix, tag, **over)
         jobs.append((pool.submit(ctx.tlc, "HostConfGen", cfg, **kw), label, expect))
 
@@ -403,15 +407,18 @@ def run(ctx):
     if thorough:
         mc("X04_mc_res_t.cfg", ALL_FIX, "all", "sources x (P), 3 sources, repaired")
         mc("X04_mc_res_t2.cfg", ALL_FIX, "all", "sources x (P), 2 sources wide, repaired")
-    # the code as found: every missing repair must show as a counterexample of (D) against (P)
-    if "mergeToken" in missing:
-        mc("X04_mc_merge_cred2.cfg", PRESENT, "asfound", "Merge x (P), as found (expected counterexample)", expect=True)
-    if "cloneTransport" in missing:
-        mc("X04_mc_tls.cfg", PRESENT, "asfound", "getHost TLS x (P), as found (expected counterexample)", expect=True)
-    for f in missing:
+    # every repair switched off again must show as a counterexample of (D) against (P): the as-found
+    # behaviour stays in the spec as a switch, also for the repairs that are in the tree by now
+    mc("X04_mc_merge_asfound.cfg", [x for x in ALL_FIX if x != "mergeToken"], "no-mergeToken",
+       "Merge x (P) without repair mergeToken (expected counterexample)", expect=True)
+    mc("X04_mc_tls_asfound.cfg", [x for x in ALL_FIX if x != "cloneTransport"], "no-cloneTransport",
+       "getHost TLS x (P) without repair cloneTransport (expected counterexample)", expect=True)
+    for f in ALL_FIX:
         if f != "cloneTransport":
             mc("X04_mc_res_quick.cfg", [x for x in ALL_FIX if x != f], "no-" + f,
                "sources x (P) without repair %s (expected counterexample)" % f, expect=True)
+    if missing:
+        mc("X04_mc_res_quick.cfg", PRESENT, "tree", "sources x (P), (D) as the tree is (expected counterexample)", expect=True)
 
     # ---- 2. scenarios from TLC ((D) as the tree under test is: Fix = PRESENT)
     gens = []
@@ -420,7 +427,7 @@ def run(ctx):
         over = kw.pop("over", {})
         cfg = cfgv(ctx, base, PRESENT, tag, **over)
         gens.append((pool.submit(ctx.tlc_scenarios, "HostConfGen", cfg, workers=1, label="generator " + label,
-                                 timeout=3000, **kw), label))
+                                 timeout=3000, heap="2g", **kw), label))
 
     for g in groups:
         over = {} if g == "credtls" else {"MVals": "3", "MValsB": mvb}
